@@ -279,7 +279,12 @@ func StartTunnels(c *Ctx, plans []*TunPlan) []*Tun {
 				return cl.Ready && t.next >= p.DupAfter
 			}, func() {
 				if t.dupStage == 0 {
-					t.Dup = c.W.NewTunClient(p.Name+"-dup", "legacy", p.From, p.ConnID)
+					from := p.From
+					if p.InFrom != "" {
+						from = p.InFrom
+					}
+					t.Dup = c.W.NewTunClient(p.Name+"-dup", "legacy", from, p.ConnID)
+					t.Dup.XFF = p.XFF
 					t.Dup.NTLMUser, t.Dup.NTLMPass = p.NTLMUser, p.NTLMPass
 					if err := t.Dup.OpenIn(""); err != nil {
 						t.dupStage = 2
